@@ -110,3 +110,32 @@ package transport
 //@ func (*File).Write [C16]
 //@   modifies t.Writes
 //@   ensures #recorded result == nil && t.Writes == old(t.Writes) ++ strs(b)
+
+// ---- C07: the transport is closed ------------------------------------------------------------------------------------
+// implClosed: ghost flag set when a transport implementation's Close has been called
+//@ ghost implClosed bool
+//@ func transport.Implementation.Close
+//@   trusted
+//@   modifies implClosed
+//@   ensures implClosed
+//@ func sync.(*Mutex).Lock
+//@   trusted
+//@   pure
+//@ func sync.(*Mutex).Unlock
+//@   trusted
+//@   pure
+//@ func (*Transport).Close [C07 C16]
+//@   modifies implClosed
+//@   ensures #implementation-closed implClosed
+
+//@ ghost implOpened bool
+//@ func (*Transport).Open
+//@   noverify
+//@   modifies implOpened
+//@   ensures implOpened <==> (result == nil)
+
+//@ func (*Transport).InChannelAuthData
+//@   noverify
+//@   maypanic
+//@   modifies alloc()
+//@   ensures fresh(result)
